@@ -251,13 +251,19 @@ Definition layer_pick : string * h5val -> list (nat * list (list Z)) :=
       end
     else [].
 
+Lemma starts_with_layer s : starts_with "layer__" ("layer__" ++ s)%string = true.
+Proof.
+  unfold starts_with.
+  change (String.prefix "layer__" ("layer__" ++ s)%string) with (String.prefix "" s).
+  destruct s; reflexivity.
+Qed.
+
 Lemma pick_layer_entries ls : flat_map layer_pick (layer_entries ls) = ls.
 Proof.
   induction ls as [|[k l] ls IH]; [reflexivity|].
   cbn [layer_entries map flat_map]. fold (layer_entries ls). rewrite IH.
   unfold layer_pick at 1.
-  change (starts_with "layer__" ("layer__" ++ nat_to_string k)%string) with true.
-  cbv iota. rewrite strip_parse_key. reflexivity.
+  rewrite starts_with_layer. rewrite strip_parse_key. reflexivity.
 Qed.
 
 Lemma pick_hash_entries hs : flat_map layer_pick (hash_entries hs) = [].
@@ -328,9 +334,11 @@ Qed.
 Lemma result_eq_refl r : result_eq r r = true.
 Proof.
   unfold result_eq.
-  rewrite Bool.eqb_reflx, !z_list_eqb_refl, layers_eqb_refl, !z_list2_eqb_refl, String.eqb_refl.
+  assert (Ho : option_eqb z_list2_eqb (r_edges r) (r_edges r) = true)
+    by (destruct (r_edges r); simpl; [apply z_list2_eqb_refl | reflexivity]).
+  rewrite Ho, Bool.eqb_reflx, !z_list_eqb_refl, layers_eqb_refl, !z_list2_eqb_refl, String.eqb_refl.
   rewrite (list_eqb_refl' String.eqb String.eqb_refl).
-  destruct (r_edges r); simpl; [apply z_list2_eqb_refl | reflexivity].
+  reflexivity.
 Qed.
 
 (* and therefore compares equal, and path queries on the loaded result are the same function of the same data *)
